@@ -41,6 +41,7 @@ class SelectLoop : public CommonLoop {
 
   public:
     SelectFdSharedData* refFdSharedData(int fd);
+    SelectFdSharedData* findFdSharedData(int fd) const; //!< nullptr if there is none
     void unrefFdSharedData(int fd);
 
   protected:
